@@ -41,6 +41,16 @@ CHECKS = {
    text="Exhaustive within the bound: functions of 0..2 (quick) / 0..3 (thorough) parameters, chains of <=1 / <=2 links, all argument tuples over a pool of 7 (incl. caller variables named like the parameters), 6 uses of the result. Real output and probe sequence must equal the model's.",
    note="Trusted: TLC, PlushSem.tla. Recursion and bodies that print before returning are covered by fixed extra programs only.",
    design="§6 C16"),
+ "C01": dict(
+   technique="TLC explicit-state enumeration of payload routes (GenRoutes.tla: start x plumbing steps x sink) over the TLA+ reference semantics with TaintTheorem as invariant; every route replayed into real plush.Render and matched per payload occurrence (entity vs verbatim)",
+   text="Exhaustive within the bound: 5 payloads x 15 starts x <=1 (quick) / <=2 (thorough) of 10 plumbing steps x 14 sinks. TLC checks on the reference semantics that data never contributes a raw < > ' \" and trusted HTML appears verbatim exactly once; the real renderer's output must match piece by piece: data pieces with every special character as some HTML entity, trusted pieces byte-identical exactly once, literal text byte for byte. PLAIN/MB character classes are instantiated from VERIF_SEED.",
+   note="Trusted: TLC, PlushSem.tla, harness kind registry. Routes outside the grammar (fmt.Stringer values, string+HTML concatenation, block helpers returning string) are not claimed.",
+   design="§6 C01"),
+ "C02": dict(
+   technique="TLC explicit-state model checking of the byte-level scanner machine against the declarative text segmentation (TextLex.tla, invariant Agree) over all short strings, each string replayed into real plush.Render byte for byte; plus TLC enumeration of text/tag interleavings (GenText.tla, invariant SourceOrder) over the reference semantics, replayed likewise",
+   text="Exhaustive within the bound: all strings of length <=4 (quick, 16k) / <=6 (thorough, 1.9M) over 8 bytes + 3 macro tags: implementation-shaped scanner = declarative segmentation in the model, and real output = declarative expectation byte for byte; all sequences of <=2 (quick) / <=3 (thorough) of 47 items (literal segments, string literals with tag delimiters / # / backslashes / newlines / quotes / multi-byte, silent tags of 8 kinds, comments) x 5 placements. The as-built scanner of the pinned commit is shown to violate Agree in the model (sensitivity).",
+   note="Trusted: TLC, PlushSem.tla. Text that opens a tag from raw bytes is only checked for totality (its meaning depends on the tag's contents).",
+   design="§6 C02"),
 }
 
 NOT_YET = "check not built yet in this session (work in progress, see DESIGN.md §8)"
